@@ -12,7 +12,7 @@ inductive Op
   | routes (routed : List Denom)
   | create (perpetual : Bool) (denom : Denom) (duration : Int) (coins : Coins) (start : Int) (numEpochs : Nat)
   | add (id : Nat) (coins : Coins) (now : Int)
-  | epoch (now : Int) (thr : Thr) (locks : List Lock)
+  | epoch (now : Int) (thr : Quotes) (locks : List Lock)
 
 /-- one operation; a failing operation (Go error/panic, dropped with its cache context) leaves the state as it was. -/
 def step (s : State) : Op → State
@@ -193,14 +193,14 @@ theorem valid_infoTotal {info : Info} (hi : InfoValid info) : validCoins (infoTo
 
 /-! ### the gauge loop of `Distribute` -/
 
-theorem distributeLoop_spec {thr : Thr} {locks : List Lock} {snap store : List Gauge} {info : Info}
+theorem distributeLoop_spec {thr : MinVal} {locks : List Lock} {snap store : List Gauge} {info : Info}
     {store' : List Gauge} {info' : Info}
     (h : distributeLoop thr locks snap store info = some (store', info'))
     (hn : (store.map (·.id)).Nodup) (hsn : (snap.map (·.id)).Nodup) (hm : ∀ g ∈ snap, g ∈ store)
     (hg : ∀ g ∈ store, GInv g) (hi : InfoValid info) :
     store'.map (·.id) = store.map (·.id) ∧ (∀ g ∈ store', GInv g) ∧ InfoValid info' ∧
     ∀ d, owed store' d + amountOf (infoTotal info') d = owed store d + amountOf (infoTotal info) d := by
-  induction snap generalizing store info with
+  induction snap generalizing store info thr with
   | nil =>
     simp only [distributeLoop] at h; cases h
     exact ⟨rfl, hg, hi, fun d => rfl⟩
@@ -348,11 +348,11 @@ theorem Inv_add {s s' : State} {id : Nat} {c : Coins} {now : Int} (hs : Inv s) (
       omega
 
 /-- the pieces of a successful epoch. -/
-theorem epoch_unfold {s : State} {now : Int} {thr : Thr} {locks : List Lock} {s' : State} {info : Info}
+theorem epoch_unfold {s : State} {now : Int} {thr : Quotes} {locks : List Lock} {s' : State} {info : Info}
     (h : epoch s now thr locks = some (s', info)) :
     ∃ up act snap store bal act' fin,
       activate now s.upcoming s.active = some (up, act) ∧ snapshot s.gauges (refsIds act) = some snap ∧
-      distributeLoop thr locks snap s.gauges [] = some (store, info) ∧
+      distributeLoop ⟨thr, []⟩ locks snap s.gauges [] = some (store, info) ∧
       subCoins s.balance (infoTotal info) = some bal ∧ finishLoop snap act s.finished = some (act', fin) ∧
       s' = { s with gauges := store, upcoming := up, active := act', finished := fin, balance := bal } := by
   unfold epoch at h
@@ -365,7 +365,7 @@ theorem epoch_unfold {s : State} {now : Int} {thr : Thr} {locks : List Lock} {s'
     | none => rw [h2] at h; cases h
     | some snap =>
       rw [h2] at h; simp only at h
-      cases h3 : distributeLoop thr locks snap s.gauges [] with
+      cases h3 : distributeLoop ⟨thr, []⟩ locks snap s.gauges [] with
       | none => rw [h3] at h; cases h
       | some si =>
         obtain ⟨store, info1⟩ := si
@@ -397,7 +397,7 @@ theorem epoch_refs_perm {up act act' fin : Refs} {u0 a0 f0 : Refs} {F : List Nat
   simp only [List.count_append] at *
   omega
 
-theorem Inv_epoch {s s' : State} {now : Int} {thr : Thr} {locks : List Lock} {info : Info} (hs : Inv s)
+theorem Inv_epoch {s s' : State} {now : Int} {thr : Quotes} {locks : List Lock} {info : Info} (hs : Inv s)
     (h : epoch s now thr locks = some (s', info)) : Inv s' := by
   obtain ⟨up, act, snap, store, bal, act', fin, h1, h2, h3, h4, h5, rfl⟩ := epoch_unfold h
   have p1 := activate_perm h1
